@@ -241,6 +241,12 @@ func (ex *Exec) execUnOp(st *State, in *ssa.UnOp) {
 		switch l.(type) {
 		case LocHeapField, LocDeref, LocGlobal:
 			ex.assumeTypeInv(st, v, in.Type())
+			// a cell not written since the epoch began holds a reference that existed when the epoch began
+			if v.sort == SInt && isRefType(in.Type()) {
+				if b, ok := ex.untouchedBound(st, l); ok {
+					vc.assume(st.guard, Le(v, b))
+				}
+			}
 			if ex.onRead != nil {
 				ex.onRead(st, l)
 			}
@@ -473,13 +479,13 @@ func (ex *Exec) execConvert(st *State, in *ssa.Convert) {
 		// string(bytes)
 		vc.ufun("gs.frombytes."+sortSym(from), []Sort{from}, SStr)
 		r := mk(SStr, "gs.frombytes."+sortSym(from), x)
-		if sliceElems[from] == SInt {
+		if sliceElemGet(from) == SInt {
 			vc.assume(st.guard, Eq(mk(SInt, "gs.len", r), slLen(x)))
 		}
 		ex.regs[in] = r
 	case from == SStr && strings.HasPrefix(to, "Slice_"):
 		r := vc.fresh("bytes", to)
-		if sliceElems[to] == SInt {
+		if sliceElemGet(to) == SInt {
 			if _, isByte := in.Type().Underlying().(*types.Slice).Elem().Underlying().(*types.Basic); isByte {
 				vc.assume(st.guard, And(Eq(slLen(r), mk(SInt, "gs.len", x)), Not(slNil(r))))
 				q := "i!q"
@@ -680,3 +686,25 @@ func (ex *Exec) ghostGetSort(st *State, name string, sort Sort) T {
 }
 
 func (ex *Exec) loopOfHeader(b *ssa.BasicBlock) *loopInfo { return ex.loops[b] }
+
+// untouchedBound: if the heap cell read at l belongs to a heap symbol that has not been written in the current
+// epoch, the reference stored there was allocated before the epoch started.
+func (ex *Exec) untouchedBound(st *State, l Loc) (T, bool) {
+	var name string
+	switch l := l.(type) {
+	case LocHeapField:
+		name = fieldHeapName(l.owner, l.idx)
+	case LocDeref:
+		if _, isStruct := l.elem.Underlying().(*types.Struct); isStruct && !isTimeTime(l.elem) {
+			return T{}, false
+		}
+		name = derefHeapName(l.elem)
+	default:
+		return T{}, false
+	}
+	if _, written := st.heaps[name]; written {
+		return T{}, false
+	}
+	b, ok := ex.epochAlloc[st.epoch]
+	return b, ok
+}
